@@ -6,7 +6,9 @@ import (
 	"bytes"
 	"encoding/binary"
 	"fmt"
+	"runtime/debug"
 	"sync/atomic"
+	"syscall"
 	"time"
 
 	astits "github.com/asticode/go-astits"
@@ -227,6 +229,58 @@ func checkC10(c *mc.Ctx) {
 		nruns = done
 		c.Ev.AddScenario(mc.Scenario{Name: "runs of equal bytes", SpaceSize: int64(len(msgs)), Executed: nruns, Exhaustive: nruns == int64(len(msgs)), States: nruns * 4, Trans: nruns * 4,
 			Bound: "7 byte values x run lengths 1..600 x 3 prefixes x 2 suffixes; two runs of 16 edge lengths each over 4 values; from 4 register values"})
+	}
+	// the checksum READS its input: messages in read-only memory (a page mapped without write permission; a write
+	// faults, and the fault is turned into a panic that is caught here). A function that scribbles on its input and
+	// puts things back before returning gives right values to a lone caller - and wrong ones to two callers that
+	// checksum the same section at the same time
+	{
+		var nro int64
+		page, err := syscall.Mmap(-1, 0, 1<<16, syscall.PROT_READ|syscall.PROT_WRITE, syscall.MAP_ANON|syscall.MAP_PRIVATE)
+		if err == nil {
+			for i := range page {
+				page[i] = byte(i*7 + i>>8)
+			}
+			if err = syscall.Mprotect(page, syscall.PROT_READ); err == nil {
+				old := debug.SetPanicOnFault(true)
+				lens := []int{}
+				for l := 0; l <= 300; l++ {
+					lens = append(lens, l)
+				}
+				lens = append(lens, 1021, 1024, 4093, 4096, 65535)
+				for _, l := range lens {
+					for _, off := range []int{0, 1, 3} {
+						if off+l > len(page) {
+							continue
+						}
+						m := page[off : off+l]
+						var got, got2 uint32
+						if p := mc.Catch(func() {
+							got = astits.VerifComputeCRC32(m)
+							got2 = astits.VerifUpdateCRC32(astits.VerifUpdateCRC32(0xffffffff, m[:l/2]), m[l/2:])
+						}); p != nil {
+							c.Rep.Report("checksum-writes-to-its-input", map[string]any{"kind": "crc", "length": l, "offset": off, "message": fmt.Sprintf("checksumming %d bytes that lie in read-only memory faults: the function writes to its input (%v)", l, p)})
+							break
+						}
+						cp := append([]byte{}, m...)
+						if want := ref.CRC(cp); got != want || got2 != want {
+							c.Rep.Report("message", map[string]any{"kind": "crc", "message_hex": mc.Hex(cp), "message": "checksum differs from CRC-32/MPEG-2"})
+						}
+						nro++
+					}
+				}
+				debug.SetPanicOnFault(old)
+			}
+			syscall.Mprotect(page, syscall.PROT_READ|syscall.PROT_WRITE)
+			syscall.Munmap(page)
+		}
+		if err != nil {
+			c.Ev.Assumptions = append(c.Ev.Assumptions, "read-only input memory could not be set up ("+err.Error()+"): the read-only-input scenario was skipped")
+		} else {
+			c.Ev.Class("input-in-read-only-memory", nro)
+			c.Ev.AddScenario(mc.Scenario{Name: "input in read-only memory", SpaceSize: nro, Executed: nro, Exhaustive: true, States: nro, Trans: nro,
+				Bound: "messages of every length 0..300 and 1021, 1024, 4093, 4096, 65535 at three alignments, one pass and two pieces, in a page without write permission"})
+		}
 	}
 	c.Ev.Sample(map[string]any{"state": "0xffffffff", "byte": "0x00", "next_state": fmt.Sprintf("%#x", ref.CRCStep(0xffffffff, 0))})
 	_ = bad
